@@ -905,6 +905,7 @@ pub fn check_ser<T: Uni + Encode + Decode>(ctx: &mut Ctx, name: &str) {
     let p = Plugin::default();
     let vals = T::vals();
     ctx.types += 1;
+    let bad_before = ctx.bad.len();
     let encs: Vec<Vec<u8>> = vals.iter().map(|v| enc(v, &p)).collect();
     for (v, e) in vals.iter().zip(&encs) {
         ctx.values += 1;
@@ -967,7 +968,12 @@ pub fn check_ser<T: Uni + Encode + Decode>(ctx: &mut Ctx, name: &str) {
             ));
         }
     }
-    // back-to-back values are read back in sequence (sliding triples)
+    // back-to-back values are read back in sequence (sliding triples); not
+    // attempted for a type whose single values already fail (a decoder that
+    // is out of step reads garbage lengths and aborts on allocation)
+    if ctx.bad.len() > bad_before {
+        return;
+    }
     let n = vals.len();
     let step = (n / 200).max(1);
     let mut i = 0;
@@ -1040,8 +1046,9 @@ pub fn check_hash<T: Uni + StableHash + Encode + Decode>(ctx: &mut Ctx, name: &s
             ctx.fail(format!("{name}: hash of {v:?} depends on the storage"));
         }
         // after a serialization round trip
+        // (a value that does not survive the round trip is C12's concern)
         if let Ok((back, _)) = dec::<T>(&enc(v, &p), &p) {
-            if hash128(&back, 7) != h {
+            if back.eqv(v) && hash128(&back, 7) != h {
                 ctx.fail(format!(
                     "{name}: hash of {v:?} changes over a serialization round trip"
                 ));
